@@ -659,9 +659,12 @@ class TaskHandler(PoolThread):
                     continue
                 break
             except Exception:
-                job, ind = task[1][:2] if task else (0, 0)
-                if job in cache:
-                    cache[job]._set(ind + 1, (False, ExceptionInfo()))
+                if task:
+                    # (no task was produced yet: there is no job to report
+                    # the failing input on - certainly not job 0)
+                    job, ind = task[1][:2]
+                    if job in cache:
+                        cache[job]._set(ind + 1, (False, ExceptionInfo()))
                 if set_length:
                     util.debug('doing set_length()')
                     set_length(i + 1)
